@@ -82,7 +82,10 @@ func genView(rt *rapid.T, o viewOpts) *gossipbackend.ViewCase {
 		// committee sizes around the multiples of TARGET_AGGREGATORS_PER_COMMITTEE (31|32|33, 47|48): modulo 1|2|3
 		active = rapid.SampledFrom([]int{124, 124, 127, 128, 132, 188, 192}).Draw(rt, "active")
 		if o.tour == 3 {
-			active = 128
+			active = 128 // committees of 32: modulo 2, non-aggregators exist
+		}
+		if o.tour == 1 {
+			active = 124 // committees of 31: one below the modulo step
 		}
 		ov["TARGET_COMMITTEE_SIZE"], ov["MAX_COMMITTEES_PER_SLOT"] = 4, 1
 		ov["SYNC_COMMITTEE_SIZE"] = rapid.SampledFrom([]uint64{128, 128, 32}).Draw(rt, "sync_size")
@@ -132,6 +135,9 @@ func genView(rt *rapid.T, o viewOpts) *gossipbackend.ViewCase {
 			p.PropSlash = 1
 		case opSlots[2]:
 			p.AttSlash = 1
+		}
+		if s == h-2 || s == h-5 {
+			p.Exits = 1 // a validator that has initiated its exit but is still active at the head
 		}
 		if p.Exits+p.PropSlash+p.AttSlash > 0 {
 			p.Empty = false
@@ -291,19 +297,25 @@ func genMsg(rt *rapid.T, bv *bview, topic, corrupt string, forkWant int) (MsgCas
 	}
 	switch topic {
 	case "attestation", "aggregate":
+		finBlockSlot := bv.ref.Blocks[bv.ref.Fin.Root].Slot
 		switch {
-		case wantStale && mc.Branch > 0:
-			mc.Slot = u(lo, tip, "slot")
+		case corrupt == "A-PRE-FINALIZED" || corrupt == "G-PRE-FINALIZED":
+			mc.Branch = 0
+			if finBlockSlot > 0 {
+				mc.Slot = u(0, finBlockSlot-1, "slot")
+			}
 		case mc.Branch > 0:
 			mc.Slot = u(lo, tip, "slot")
 		default:
-			if a, b, ok := forkRange(); ok {
-				mc.Slot = u(a, b, "slot")
-			} else if rapid.IntRange(0, 9).Draw(rt, "recent") < 7 {
-				mc.Slot = u(tip-minU(tip, 9), tip, "slot")
-			} else {
-				mc.Slot = u(0, tip, "slot")
+			a, b, ok := forkRange()
+			if !ok {
+				a, b = 0, tip
 			}
+			// votes for the finalized block or its descendants (older ones are no longer in the finalized subtree)
+			if rapid.IntRange(0, 9).Draw(rt, "any_slot") > 0 && finBlockSlot <= b {
+				a = maxU(a, finBlockSlot)
+			}
+			mc.Slot = u(a, b, "slot")
 		}
 	case "sync_message", "contribution":
 		as := altairStartSlot(bv)
@@ -471,10 +483,13 @@ func record(r *report.Run, c *Case, out *outcome) {
 			r.Class("catalogue:" + c.Msg.Corrupt)
 		}
 		r.Sample(c.Msg.Topic+"|"+kind, func() any {
-			return map[string]any{"case": c, "fork": fork, "targeted_condition": out.target, "first_violated": out.first, "model_class": out.class.String(), "validator_says": out.got}
+			return map[string]any{"view": fmt.Sprintf("forks=%v validators=%d trunk_slots=%d branches=%d (full recipe: see replays/regress for the shape)", c.View.Config.ForkEpochs, c.View.Genesis.N, len(c.View.Trunk), len(c.View.Branches)),
+				"clock_ms": c.ClockMs, "msg": c.Msg, "fork": fork, "targeted_condition": out.target, "first_violated": out.first, "model_class": out.class.String(), "validator_says": out.got}
 		})
 	} else if kind == "corrupt" {
-		r.Class("corruption-missed-its-target:" + c.Msg.Corrupt)
+		r.Class("corruption-missed-its-target:" + c.Msg.Corrupt + ":first=" + out.first)
+	} else if out.first != "" {
+		r.Class("honest-sender-but:" + out.first)
 	} else {
 		r.Class("honest-on-a-trivial-view")
 	}
@@ -516,9 +531,15 @@ func sweep(r *report.Run, rt *rapid.T, vc *gossipbackend.ViewCase, tourFork int)
 			}
 		}
 	}
-	for i := range Catalogue {
-		if c, f := do(Catalogue[i].Topic, Catalogue[i].ID, -1); f != nil {
-			return c, f
+	reps := 1
+	if tourFork >= 0 {
+		reps = 2 // the tour populates the mandatory rows: two draws per entry
+	}
+	for k := 0; k < reps; k++ {
+		for i := range Catalogue {
+			if c, f := do(Catalogue[i].Topic, Catalogue[i].ID, tourFork); f != nil {
+				return c, f
+			}
 		}
 	}
 	return &Case{View: *vc}, nil
